@@ -369,5 +369,11 @@ func runDKGOwnership(t *testing.T, rc *RunCtx) {
 }
 
 func init() {
-	propRunners["C16"] = runDKGCallers
+	propRunners["C16"] = func(t *testing.T, rc *RunCtx) {
+		if rc.Param("mode", "") == "tls" {
+			runPeerEdge(t, rc)
+			return
+		}
+		runDKGCallers(t, rc)
+	}
 }
